@@ -12,7 +12,7 @@ from klongpy import KlongInterpreter
 from .. import bfs, runner
 from ..values import I, R, C, S, Y, L, U, cn, canon, norm, lit, show
 
-PRELUDE = 'f::{:{[1 10] ["a" 20]}}'
+PRELUDE = 'f::{:{[1 10] ["a" 20]}};g::{:{["c" :{["n" 0]}] [7 1]}}'
 F_LITERAL = ((I(1), I(10)), (S('a'), I(20)))
 
 # key 0 is in both alphabets: 0 is also "no count" for Drop and "false", i.e. the key most likely to be special-cased
@@ -128,6 +128,12 @@ def text(op):
         return '((%s),,e),d' % lit(op[1])
     if k == 'nfind':
         return '(d?%s)?%s' % (lit(op[1]), lit(op[2]))
+    if k == 'gcall':            # a literal with a dictionary literal as a value: every evaluation makes both afresh
+        return op[1] + '::g()'
+    if k == 'gnfind':
+        return '(g()?"c")?"n"'
+    if k == 'nadd':             # update, in place, the dictionary found under a key of d
+        return '(d?%s),[%s %s]' % (lit(op[1]), lit(op[2]), lit(op[3]))
     raise ValueError(op)
 
 
@@ -181,10 +187,27 @@ def apply(m, op):
         if e2 is None:
             return ('val', U)
         return ('dict', e2[1][1]) if e2[1][0] == 'ref' else ('val', e2[1])
+    if k == 'gcall':
+        inner = m.new(((S('n'), I(0)),))
+        outer = m.new(((I(7), I(1)),))
+        m.objs[outer][tagkey(S('c'))] = (S('c'), ('ref', inner))
+        m.vars[op[1]] = outer
+        m.called = m.called | {'g'}
+        return ('dict', outer)
+    if k == 'gnfind':
+        m.called = m.called | {'g'}
+        return ('val', I(0))
+    if k == 'nadd':
+        e = m.objs[m.vars['d']].get(tagkey(op[1]))
+        if e is None or e[1][0] != 'ref':
+            return None
+        kk, vv = pair(op[2], op[3])
+        m.objs[e[1][1]][tagkey(kk)] = (kk, vv)
+        return ('dict', e[1][1])
     raise ValueError(op)
 
 
-READS = ('find', 'size', 'each', 'ffind', 'feach', 'nfind')
+READS = ('find', 'size', 'each', 'ffind', 'feach', 'nfind', 'gnfind')
 
 
 def enabled(m, keys, vals, nest):
@@ -221,10 +244,18 @@ def enabled(m, keys, vals, nest):
             ops.append(('nest', Y('n')))
             ops.append(('nestj', S('ab')))      # a two-character string key: looks like a [k v] pair to a careless test
             ops.append(('nestl', Y('n')))
-    for nk in (Y('n'), S('ab')):
+    if nest:
+        ops.append(('gcall', 'd'))
+        ops.append(('gcall', 'e'))
+        ops.append(('gnfind',))
+    for nk in (Y('n'), S('ab'), S('c')):
         if nest and m.vars['d'] is not None and tagkey(nk) in m.objs[m.vars['d']]:
-            for k in keys[:3]:
+            for k in keys[:3] + ([S('n')] if nk == S('c') else []):
                 ops.append(('nfind', nk, k))
+            e = m.objs[m.vars['d']][tagkey(nk)]
+            if e[1][0] == 'ref':
+                ops.append(('nadd', nk, S('n'), I(5)))
+                ops.append(('nadd', nk, keys[0], vals[0]))
     return ops
 
 
